@@ -21,6 +21,7 @@ type RefResult struct {
 	HasRows bool
 	Err     string // "" or an error class: "constraint violation", "timed out", "error"
 	Kind    string // op kind
+	Detail  string // why the model fails the operation
 }
 
 type RefSelRow struct {
@@ -455,8 +456,9 @@ func RefTransact(sch *Schema, before DBState, ops []Op, reported map[int]string)
 			x.st[tn] = TableData{}
 		}
 	}
+	detail := ""
 	fail := func(kind, class string) {
-		out.Results = append(out.Results, RefResult{Kind: kind, Err: class})
+		out.Results = append(out.Results, RefResult{Kind: kind, Err: class, Detail: detail})
 		out.OpFailed = true
 	}
 	// pass 1: names
@@ -519,6 +521,7 @@ func RefTransact(sch *Schema, before DBState, ops []Op, reported map[int]string)
 					}
 					if ce := checkType(&c.Type, v); ce != "" {
 						bad = "constraint violation"
+						detail = "insert:" + ce
 						break
 					}
 					row[cn] = v
@@ -588,6 +591,7 @@ func RefTransact(sch *Schema, before DBState, ops []Op, reported map[int]string)
 				}
 				if ce := checkType(&t.Columns[cn].Type, v); ce != "" {
 					bad = "constraint violation"
+					detail = "update:" + ce
 					break
 				}
 				newVals[cn] = v
@@ -597,6 +601,7 @@ func RefTransact(sch *Schema, before DBState, ops []Op, reported map[int]string)
 					for cn, v := range newVals {
 						if t.Columns[cn].Immutable && !x.st[tn][u][cn].Eq(v) {
 							bad = "constraint violation"
+							detail = "update:immutable"
 						}
 					}
 				}
@@ -765,6 +770,7 @@ func RefTransact(sch *Schema, before DBState, ops []Op, reported map[int]string)
 			if (until == "==" && eq) || (until == "!=" && !eq) {
 				out.Results = append(out.Results, RefResult{Kind: kind})
 			} else {
+				detail = "wait:timed-out"
 				fail(kind, "timed out")
 			}
 		default:
